@@ -1227,7 +1227,7 @@ class VectorImpl : public VectorDestr<T, Alloc, SizeType, WithInlineElements, Gr
 
 #ifdef AMC_CXX20
   auto operator<=>(const VectorImpl &o) const {
-    return std::lexicographical_compare_three_way(this->begin(), end(), o.begin(), o.end());
+    return std::lexicographical_compare_three_way(this->begin(), end(), o.begin(), o.end(), SynthThreeWay());
   }
 #else
   bool operator<(const VectorImpl &o) const {
